@@ -23,7 +23,7 @@ SHRINK = False
 SHAPES = [[b"x"], [b"a", b"", b"b"], [b"z" * 300]]
 
 
-def build(nc, nw, events, shape, cap, together, n, tag):
+def build(nc, nw, events, shape, cap, together, n, tag, slow_cap=None):
     sc = wg.Script()
     sc.sock(1, "ROUTER")
     sc.sock(2, "DEALER")
@@ -44,6 +44,9 @@ def build(nc, nw, events, shape, cap, together, n, tag):
         capargs = " 3"
     for p in pipes + ([20] if cap else []):
         sc.add(f"wire {p}")
+    if slow_cap is not None:
+        # the capture's consumer is slow: its connection accepts only `slow_cap` bytes for now
+        sc.add(f"credit 20 {slow_cap}")
     f = sc.fut()
     sc.add(f"proxy {f} 1 2{capargs}", f"poll {f}")
     exp_back, exp_front, all_fwd = [], {}, []
@@ -67,6 +70,11 @@ def build(nc, nw, events, shape, cap, together, n, tag):
     if together:
         sc.add(f"poll {f}")
     sc.add(f"poll {f}")
+    if slow_cap is not None:
+        for p in pipes:
+            sc.add(f"wire {p}")
+        sc.add("credit 20 inf")  # (the capture wire is read once, at the end: reading drains it)
+        sc.add(*[f"poll {f}"] * (len(events) + 2))
     for p in pipes:
         sc.add(f"wire {p}")
     if cap:
@@ -89,6 +97,15 @@ def cases(tier, rng):
                             continue
                         out.append(build(nc, nw, events, shape, cap, together, n, "both-ready" if together else "one-by-one"))
                         n += 1
+    # slow capture consumer: the copy for the capture socket cannot be written at once — it must still arrive,
+    # whole, once the consumer catches up (one event per poll: no two directions race)
+    for nc, nw in [(1, 1), (2, 1)]:
+        evs = [("c", i) for i in range(1, nc + 1)] + [("w", j) for j in range(1, nw + 1)]
+        for events in itertools.product(evs, repeat=2 if tier == "quick" else 3):
+            for shape in SHAPES:
+                for slow in (0, 1, 7):
+                    out.append(build(nc, nw, events, shape, "PUSH", False, n, "slow-capture", slow_cap=slow))
+                    n += 1
     for _ in range(150 if tier == "quick" else 2000):
         nc, nw = rng.randint(1, 3), rng.randint(1, 3)
         events = [(rng.choice("cw"), 0) for _ in range(rng.randint(3, 10))]
@@ -132,10 +149,19 @@ def oracle(case, lines):
     if any(op.startswith("poll") and l.startswith("ready") for op, l in res[-(nc + nw + 4):]):
         return f"the proxy ended: {[l for op, l in res if op.startswith('poll')][-1]}"
     # wires after the proxy started = last block of `wire` ops
+    # (reading a wire drains it: everything written since the proxy started = the reads after that, concatenated)
     last = {}
+    started = False
     for op, l in res:
-        if op.startswith("wire ") :
-            last[int(op.split()[1])] = l.split(" ", 1)[1]
+        if op.startswith("proxy "):
+            started = True
+        if started and op.startswith("wire "):
+            p_, v = int(op.split()[1]), l.split(" ", 1)[1]
+            if "#" in v or "#" in last.get(p_, ""):
+                last[p_] = "#"
+            else:
+                prev = last.get(p_, ".")
+                last[p_] = ((prev if prev != "." else "") + (v if v != "." else "")) or "."
     # backend: the workers together received exactly exp_back, each worker in order (round robin)
     got_back = []
     for w in range(1, nw + 1):
